@@ -1,4 +1,5 @@
 import LenaModel.Model.C02
+import LenaModel.Lemmas.C17
 /-! # C02 — infrastructure: what a generator will do (`Feeds` / `Produces`), the consumer lemma,
 and the stage lemmas for the per-value stages, `islice` and `Count`. -/
 
@@ -308,5 +309,306 @@ theorem count_produces (mark : Nat → α → α) (up : Gen σ α) (cnt : σ →
       cases ho
       exact ⟨t', h2, h3, h4⟩
     | finished => obtain ⟨ho, _⟩ := hR; cases ho
+
+/-! ## `RunIf.run` -/
+
+theorem runIf_call (sel : α → Bool) (inner : α → List α) (up : Gen σ α) (cnt : σ → Nat) (fu : Nat) :
+    ∀ {s vals cf}, Produces up cnt fu s vals cf → ∀ n, vals.length < n →
+      (match (runIfSpec sel inner ⟨cnt s, vals, cf⟩).vals with
+       | [] => ∃ s', iter (runIfStep sel inner up fu) n (s, []) = .done (s', []) ∧
+            up.next fu s' = .done s' ∧ cnt s' = cf
+       | (b, c) :: rest => ∃ s' pend vals', iter (runIfStep sel inner up fu) n (s, []) = .item b (s', pend) ∧
+            cnt s' = c ∧ Produces up cnt fu s' vals' cf ∧ vals'.length < vals.length ∧
+            rest = pend.map (fun r => (r, cnt s')) ++ (runIfSpec sel inner ⟨cnt s', vals', cf⟩).vals) := by
+  intro s vals cf h
+  replace h : Feeds up cnt fu s vals (some cf) := h
+  generalize he : some cf = e at h
+  induction h with
+  | more => cases he
+  | @done s s' h1 h2 =>
+    cases he
+    intro n hn
+    cases n with
+    | zero => simp at hn
+    | succ n => exact ⟨s', iter_stop n (by simp [runIfStep, h1]), h2, rfl⟩
+  | @item s s' a rest e hi hrest ih =>
+    cases he
+    intro n hn
+    cases n with
+    | zero => simp at hn
+    | succ n =>
+      have hn' : rest.length < n := by simpa using hn
+      by_cases hs : sel a = true
+      · cases hin : inner a with
+        | nil =>
+          have := ih rfl n hn'
+          simp only [runIfSpec, List.flatMap_cons, hs, if_true, hin, List.map_nil, List.nil_append]
+          rw [iter_cont (s' := (s', [])) n (by simp [runIfStep, hi, hs, hin])]
+          simp only [runIfSpec] at this
+          cases hf : List.flatMap (fun q => if sel q.1 = true then (inner q.1).map (fun r => (r, q.2)) else [q]) rest with
+          | nil => rw [hf] at this; exact this
+          | cons q tl =>
+            rw [hf] at this
+            obtain ⟨s'', pend, vals', h1, h2, h3, h4, h5⟩ := this
+            exact ⟨s'', pend, vals', h1, h2, h3, by simp; omega, h5⟩
+        | cons x r =>
+          obtain ⟨n', rfl⟩ : ∃ n', n = n' + 1 := ⟨n - 1, by omega⟩
+          simp only [runIfSpec, List.flatMap_cons, hs, if_true, hin, List.map_cons, List.cons_append]
+          refine ⟨s', r, rest, ?_, rfl, hrest, by simp, rfl⟩
+          rw [iter_cont (s' := (s', x :: r)) (n' + 1) (by simp [runIfStep, hi, hs, hin])]
+          exact iter_yield n' (by simp [runIfStep])
+      · have hs' : sel a = false := by simpa using hs
+        simp only [runIfSpec, List.flatMap_cons, hs', Bool.false_eq_true, if_false, List.cons_append, List.nil_append]
+        exact ⟨s', [], rest, iter_yield n (by simp [runIfStep, hi, hs']), rfl, hrest, by simp, by simp⟩
+
+theorem runIf_produces (sel : α → Bool) (inner : α → List α) (up : Gen σ α) (cnt : σ → Nat) (fu : Nat)
+    {s : σ} {vals : List (α × Nat)} {cf : Nat} (h : Produces up cnt fu s vals cf) (hfu : vals.length < fu) :
+    Produces (runIfG sel inner up) (fun t => cnt t.1) fu (s, [])
+      (runIfSpec sel inner ⟨cnt s, vals, cf⟩).vals cf := by
+  have hpos : 0 < fu := by omega
+  refine produces_of_calls (runIfG sel inner up) (fun t => cnt t.1) fu
+    (fun t outs cf' => ∃ vals', Produces up cnt fu t.1 vals' cf' ∧ vals'.length < fu ∧
+      outs = t.2.map (fun r => (r, cnt t.1)) ++ (runIfSpec sel inner ⟨cnt t.1, vals', cf'⟩).vals) ?_ ?_ _
+    (s, []) cf ⟨vals, h, hfu, by simp⟩
+  · rintro ⟨t, pend⟩ cf' ⟨vals', h', hfu', ho⟩
+    cases pend with
+    | cons x r => simp at ho
+    | nil =>
+      simp only [List.map_nil, List.nil_append] at ho
+      have key := runIf_call sel inner up cnt fu h' fu hfu'
+      rw [← ho] at key
+      obtain ⟨s', h1, h2, h3⟩ := key
+      exact ⟨(s', []), h1, ofStep_stop hpos (by simp [runIfStep, h2]), h3⟩
+  · rintro ⟨t, pend⟩ b c rest cf' ⟨vals', h', hfu', ho⟩
+    cases pend with
+    | cons x r =>
+      simp only [List.map_cons, List.cons_append, List.cons.injEq, Prod.mk.injEq] at ho
+      obtain ⟨⟨rfl, rfl⟩, rfl⟩ := ho
+      exact ⟨(t, r), ofStep_yield hpos (by simp [runIfStep]), rfl, vals', h', hfu', rfl⟩
+    | nil =>
+      simp only [List.map_nil, List.nil_append] at ho
+      have key := runIf_call sel inner up cnt fu h' fu hfu'
+      rw [← ho] at key
+      obtain ⟨s', pend, vals'', h1, h2, h3, h4, h5⟩ := key
+      exact ⟨(s', pend), h1, h2, vals'', h3, by omega, h5⟩
+
+/-! ## `itertools.islice` -/
+
+theorem isliceGo_nil (stop : Option Nat) (step next cnt : Nat) :
+    Lena.C17.isliceGo stop step next cnt ([] : List α) = [] := by
+  cases stop <;> rfl
+
+theorem isliceGo_ge (step next cnt st : Nat) (h : st ≤ next) (xs : List α) :
+    Lena.C17.isliceGo (some st) step next cnt xs = [] := by
+  cases xs with
+  | nil => rfl
+  | cons x r => exact Lena.C17.isliceGo_stop step next cnt st h x r
+
+theorem isliceGo_bump (stop : Option Nat) (step nx cnt : Nat) (xs : List α) :
+    Lena.C17.isliceGo stop step (bump stop step nx) cnt xs = Lena.C17.isliceGo stop step (nx + step) cnt xs := by
+  cases stop with
+  | none => rfl
+  | some st =>
+    simp only [bump]
+    split
+    · rw [isliceGo_ge _ _ _ _ (Nat.le_refl _), isliceGo_ge _ _ _ _ (by omega)]
+    · rfl
+
+/-- the clock at which `islice` in local state `l` reports its end -/
+def isliceEnd (stop : Option Nat) (l : ISt) (sf : SF α) : Nat :=
+  match stop with
+  | none => sf.cf
+  | some st => sf.need (max l.next st - l.cnt)
+
+/-- what `islice` needs to know about an input whose continuation is unknown: it has at least the
+values `islice` will ask for -/
+def IsliceEnough (stop : Option Nat) (l : ISt) (n : Nat) (e : Option Nat) : Prop :=
+  e = none → ∃ st, stop = some st ∧ max l.next st - l.cnt ≤ n
+
+/-- one `next` of `islice` -/
+theorem islice_call (stop : Option Nat) (step : Nat) (hstep : 1 ≤ step) (up : Gen σ α) (cnt : σ → Nat)
+    (fu : Nat) :
+    ∀ {s vals e}, Feeds up cnt fu s vals e → ∀ (l : ISt), l.live = true → l.cnt ≤ l.next →
+      IsliceEnough stop l vals.length e → ∀ n, vals.length < n →
+      (match Lena.C17.isliceGo stop step l.next l.cnt vals with
+       | [] => ∃ s' l', iter (isliceStep stop step up fu) n (s, l) = .done (s', l') ∧ l'.live = false ∧
+            cnt s' = isliceEnd stop l ⟨cnt s, vals, e.getD 0⟩
+       | (a, c) :: rest => ∃ s' l' vals', iter (isliceStep stop step up fu) n (s, l) = .item a (s', l') ∧
+            cnt s' = c ∧ Feeds up cnt fu s' vals' e ∧ vals'.length < vals.length ∧ l'.live = true ∧
+            l'.cnt ≤ l'.next ∧ IsliceEnough stop l' vals'.length e ∧
+            rest = Lena.C17.isliceGo stop step l'.next l'.cnt vals' ∧
+            isliceEnd stop l' ⟨cnt s', vals', e.getD 0⟩ = isliceEnd stop l ⟨cnt s, vals, e.getD 0⟩) := by
+  intro s vals e h
+  induction h with
+  | @more s =>
+    intro l hl hle hen n hn
+    obtain ⟨st, rfl, hst⟩ := hen rfl
+    obtain ⟨n, rfl⟩ : ∃ m, n = m + 1 := ⟨n - 1, by simp at hn; omega⟩
+    simp only [List.length_nil] at hst
+    have h1 : ¬ (l.cnt < l.next) := by omega
+    have h2 : reached (some st) l.cnt = true := by simp [reached]; omega
+    rw [isliceGo_nil]
+    refine ⟨s, { l with live := false }, iter_stop n (by simp [isliceStep, hl, h1, h2]), rfl, ?_⟩
+    have : max l.next st - l.cnt = 0 := by omega
+    simp [isliceEnd, this]
+  | @done s s' h1 h2 =>
+    intro l hl hle _ n hn
+    obtain ⟨n, rfl⟩ : ∃ m, n = m + 1 := ⟨n - 1, by omega⟩
+    rw [isliceGo_nil]
+    by_cases hlt : l.cnt < l.next
+    · refine ⟨s', { l with live := false }, iter_stop n (by simp [isliceStep, hl, hlt, h1]), rfl, ?_⟩
+      cases stop with
+      | none => simp [isliceEnd]
+      | some st =>
+        obtain ⟨k, hk⟩ : ∃ k, max l.next st - l.cnt = k + 1 := ⟨max l.next st - l.cnt - 1, by omega⟩
+        simp [isliceEnd, hk]
+    · by_cases hr : reached stop l.cnt = true
+      · refine ⟨s, { l with live := false }, iter_stop n (by simp [isliceStep, hl, hlt, hr]), rfl, ?_⟩
+        cases stop with
+        | none => simp [reached] at hr
+        | some st =>
+          have : max l.next st - l.cnt = 0 := by simp [reached] at hr; omega
+          simp [isliceEnd, this]
+      · refine ⟨s', { l with live := false }, iter_stop n (by simp [isliceStep, hl, hlt, hr, h1]), rfl, ?_⟩
+        cases stop with
+        | none => simp [isliceEnd]
+        | some st =>
+          obtain ⟨k, hk⟩ : ∃ k, max l.next st - l.cnt = k + 1 :=
+            ⟨max l.next st - l.cnt - 1, by simp [reached] at hr; omega⟩
+          simp [isliceEnd, hk]
+  | @item s s' a rest e hi hrest ih =>
+    intro l hl hle hen n hn
+    obtain ⟨n, rfl⟩ : ∃ m, n = m + 1 := ⟨n - 1, by omega⟩
+    have hn' : rest.length < n := by simpa using hn
+    by_cases hlt : l.cnt < l.next
+    · -- skipping: the value is pulled and dropped
+      have hstep' : isliceStep stop step up fu (s, l) = .cont (s', { l with cnt := l.cnt + 1 }) := by
+        simp [isliceStep, hl, hlt, hi]
+      have hen' : IsliceEnough stop { l with cnt := l.cnt + 1 } rest.length e := by
+        intro he
+        obtain ⟨st, hst, hle'⟩ := hen he
+        exact ⟨st, hst, by simp at hle' ⊢; omega⟩
+      have key := ih { l with cnt := l.cnt + 1 } hl (by simp; omega) hen' n hn'
+      have hgo : Lena.C17.isliceGo stop step l.next l.cnt ((a, cnt s') :: rest)
+          = Lena.C17.isliceGo stop step l.next (l.cnt + 1) rest := by
+        cases stop with
+        | none => exact Lena.C17.isliceGo_skip none step l.next l.cnt (by intro st h; cases h) (by omega) _ _
+        | some st =>
+          by_cases hge : st ≤ l.next
+          · rw [isliceGo_ge _ _ _ _ hge, isliceGo_ge _ _ _ _ hge]
+          · exact Lena.C17.isliceGo_skip (some st) step l.next l.cnt
+              (by intro st' h; cases h; omega) (by omega) _ _
+      have hend : isliceEnd stop { l with cnt := l.cnt + 1 } ⟨cnt s', rest, e.getD 0⟩
+          = isliceEnd stop l ⟨cnt s, (a, cnt s') :: rest, e.getD 0⟩ := by
+        cases stop with
+        | none => rfl
+        | some st =>
+          obtain ⟨k, hk⟩ : ∃ k, max l.next st - l.cnt = k + 1 := ⟨max l.next st - l.cnt - 1, by omega⟩
+          have hk' : max l.next st - (l.cnt + 1) = k := by omega
+          simp [isliceEnd, hk, hk']
+      rw [hgo, iter_cont n hstep']
+      simp only at key
+      cases hf : Lena.C17.isliceGo stop step l.next (l.cnt + 1) rest with
+      | nil =>
+        rw [hf] at key
+        obtain ⟨s'', l'', k1, k2, k3⟩ := key
+        exact ⟨s'', l'', k1, k2, by rw [k3, hend]⟩
+      | cons q tl =>
+        rw [hf] at key
+        obtain ⟨s'', l'', vals'', k1, k2, k3, k4, k5, k6, k7, k8, k9⟩ := key
+        exact ⟨s'', l'', vals'', k1, k2, k3, by simp; omega, k5, k6, k7, k8, by rw [k9, hend]⟩
+    · have heq : l.cnt = l.next := by omega
+      by_cases hr : reached stop l.cnt = true
+      · -- `cnt >= stop`: the end is reported without a pull
+        cases stop with
+        | none => simp [reached] at hr
+        | some st =>
+          have hst : st ≤ l.next := by simp [reached] at hr; omega
+          rw [isliceGo_ge _ _ _ _ hst]
+          refine ⟨s, { l with live := false }, iter_stop n (by simp [isliceStep, hl, hlt, hr]), rfl, ?_⟩
+          have : max l.next st - l.cnt = 0 := by omega
+          simp [isliceEnd, this]
+      · -- the value is pulled and yielded
+        have hlt' : ∀ st, stop = some st → l.next < st := by
+          intro st h
+          subst h
+          simp [reached] at hr
+          omega
+        have hgo : Lena.C17.isliceGo stop step l.next l.cnt ((a, cnt s') :: rest)
+            = (a, cnt s') :: Lena.C17.isliceGo stop step (bump stop step l.next) (l.cnt + 1) rest := by
+          rw [isliceGo_bump, heq]
+          exact Lena.C17.isliceGo_emit stop step l.next hlt' _ _
+        rw [hgo]
+        have hb : l.cnt + 1 ≤ bump stop step l.next := by
+          cases stop with
+          | none => simp [bump]; omega
+          | some st =>
+            have := hlt' st rfl
+            simp only [bump]
+            split <;> omega
+        refine ⟨s', { next := bump stop step l.next, cnt := l.cnt + 1, live := true }, rest,
+          iter_yield n (by simp [isliceStep, hl, hlt, hr, hi]), rfl, hrest, by simp, rfl, hb, ?_, rfl, ?_⟩
+        · intro he
+          obtain ⟨st, hst, hle'⟩ := hen he
+          subst hst
+          refine ⟨st, rfl, ?_⟩
+          have := hlt' st rfl
+          simp only [bump, List.length_cons] at hle' ⊢
+          split <;> omega
+        · cases stop with
+          | none => rfl
+          | some st =>
+            have := hlt' st rfl
+            obtain ⟨k, hk⟩ : ∃ k, max l.next st - l.cnt = k + 1 := ⟨max l.next st - l.cnt - 1, by omega⟩
+            have hk' : max (bump (some st) step l.next) st - (l.cnt + 1) = k := by
+              simp only [bump]
+              split <;> omega
+            simp [isliceEnd, hk, hk']
+
+/-- **`islice` stage.**  Over an input that feeds `vals` (and then ends, or — if `islice` has a
+`stop` and `vals` has the `max start stop` values it will ask for — continues in any way), `islice`
+yields the selected values at their own stamps and ends at the clock at which it has obtained
+`max start stop` values (or seen the end). -/
+theorem islice_feeds (stop : Option Nat) (step : Nat) (hstep : 1 ≤ step) (up : Gen σ α) (cnt : σ → Nat)
+    (fu : Nat) {s : σ} {vals : List (α × Nat)} {e : Option Nat} (h : Feeds up cnt fu s vals e) (start : Nat)
+    (hen : IsliceEnough stop (isliceInit start) vals.length e) (hfu : vals.length < fu) :
+    Produces (isliceG stop step up) (fun t => cnt t.1) fu (s, isliceInit start)
+      (Lena.C17.islice vals start stop step)
+      (isliceEnd stop (isliceInit start) ⟨cnt s, vals, e.getD 0⟩) := by
+  have hpos : 0 < fu := by omega
+  refine produces_of_calls (isliceG stop step up) (fun t => cnt t.1) fu
+    (fun t outs cf' => (t.2.live = false ∧ outs = [] ∧ cnt t.1 = cf') ∨
+      (∃ vals', Feeds up cnt fu t.1 vals' e ∧ vals'.length < fu ∧ t.2.live = true ∧ t.2.cnt ≤ t.2.next ∧
+        IsliceEnough stop t.2 vals'.length e ∧ outs = Lena.C17.isliceGo stop step t.2.next t.2.cnt vals' ∧
+        isliceEnd stop t.2 ⟨cnt t.1, vals', e.getD 0⟩ = cf')) ?_ ?_ _ (s, isliceInit start) _
+    (Or.inr ⟨vals, h, hfu, rfl, Nat.zero_le _, hen, rfl, rfl⟩)
+  · rintro ⟨t, l⟩ cf' hR
+    rcases hR with ⟨hl, _, hc⟩ | ⟨vals', h', hfu', hl, hle, hen', ho, hc⟩
+    · simp only at hl
+      exact ⟨(t, l), ofStep_stop hpos (by simp [isliceStep, hl]), ofStep_stop hpos (by simp [isliceStep, hl]), hc⟩
+    · have key := islice_call stop step hstep up cnt fu h' l hl hle hen' fu hfu'
+      simp only at ho
+      rw [← ho] at key
+      obtain ⟨s', l', k1, k2, k3⟩ := key
+      exact ⟨(s', l'), k1, ofStep_stop hpos (by simp [isliceStep, k2]), by rw [k3]; exact hc⟩
+  · rintro ⟨t, l⟩ b c rest cf' hR
+    rcases hR with ⟨_, ho, _⟩ | ⟨vals', h', hfu', hl, hle, hen', ho, hc⟩
+    · cases ho
+    · have key := islice_call stop step hstep up cnt fu h' l hl hle hen' fu hfu'
+      simp only at ho
+      rw [← ho] at key
+      obtain ⟨s', l', vals'', k1, k2, k3, k4, k5, k6, k7, k8, k9⟩ := key
+      exact ⟨(s', l'), k1, k2, Or.inr ⟨vals'', k3, by omega, k5, k6, k7, k8, by rw [k9]; exact hc⟩⟩
+
+theorem islice_produces (start : Nat) (stop : Option Nat) (step : Nat) (hstep : 1 ≤ step) (up : Gen σ α)
+    (cnt : σ → Nat) (fu : Nat) {s : σ} {vals : List (α × Nat)} {cf : Nat}
+    (h : Produces up cnt fu s vals cf) (hfu : vals.length < fu) :
+    Produces (isliceG stop step up) (fun t => cnt t.1) fu (s, isliceInit start)
+      (isliceSpec start stop step ⟨cnt s, vals, cf⟩).vals (isliceSpec start stop step ⟨cnt s, vals, cf⟩).cf := by
+  have := islice_feeds stop step hstep up cnt fu h start (by intro he; cases he) hfu
+  have e : isliceEnd stop (isliceInit start) ⟨cnt s, vals, cf⟩ = (isliceSpec start stop step ⟨cnt s, vals, cf⟩).cf := by
+    cases stop <;> simp [isliceEnd, isliceInit, isliceSpec]
+  simp only [Option.getD_some, e] at this
+  exact this
 
 end Lena.C02
